@@ -22,7 +22,10 @@ import (
 	"verif/lib/rep"
 )
 
-const okTpl = `var X=(typeof x=='undefined')?'-':String(x); var Y=(typeof y=='undefined')?'-':String(y); var S=[ruleId,'%s',location,event.k,X,Y].join('|'); Env.out(S); S`
+// the ok action reports its environment; it also reports whether it found the event as
+// submitted (no mark of another execution on it) and then writes into its event: every
+// execution works on its own copy, and the event in the returned tree stays as submitted
+const okTpl = `var X=(typeof x=='undefined')?'-':String(x); var Y=(typeof y=='undefined')?'-':String(y); var M=(typeof event.mark=='undefined' && event.k!=='marked')?'clean':'marked by '+String(event.mark); var S=[ruleId,'%s',location,event.k,X,Y,M].join('|'); event.mark=S; event.k='marked'; Env.out(S); S`
 
 var failing = []string{`throw 'boom'`, `{{{ not javascript`, `undefinedFn()`}
 
@@ -98,10 +101,101 @@ func systemWrites(r *rep.Report, e rep.Env) {
 	}
 }
 
+// triggered: rules run through {"trigger!":id} (how cron fires scheduled rules) and
+// {"evaluate!":rule} see their own id as ruleId (the id they are stored under, "embedded"
+// for an embedded rule), also when the rule body carries an "id" of its own, run each action
+// once, and a one-shot rule is gone afterwards.
+func triggered(r *rep.Report, e rep.Env) {
+	for round := 0; round < e.Pick(16, 100); round++ {
+		kind := drv.Kinds[round%2]
+		loc, err := drv.NewLoc("T", kind, drv.MustMem())
+		if err != nil {
+			r.Violate("", "cannot build location", nil)
+			return
+		}
+		bodyId := []interface{}{nil, "alias", "r1", ""}[round/2%4]
+		mk := func(extra map[string]interface{}) core.Map {
+			m := core.Map{"actions": []interface{}{map[string]interface{}{"code": "ruleId + '@' + location + '#0'"}, map[string]interface{}{"code": "ruleId + '@' + location + '#1'"}}}
+			if bodyId != nil {
+				m["id"] = bodyId
+			}
+			for k, v := range extra {
+				m[k] = v
+			}
+			return m
+		}
+		ctx := drv.Ctx()
+		if _, err := loc.AddRule(ctx, "r1", mk(map[string]interface{}{"when": map[string]interface{}{"pattern": map[string]interface{}{"k": "go"}}})); err != nil {
+			r.Violate("", "AddRule failed: "+err.Error(), nil)
+			continue
+		}
+		if _, err := loc.AddRule(ctx, "once", mk(map[string]interface{}{"schedule": "+1h"})); err != nil {
+			r.Violate("", "AddRule (one-shot) failed: "+err.Error(), nil)
+			continue
+		}
+		vals := func(fr *core.FindRules) string {
+			var vs []string
+			if fr != nil {
+				for _, v := range fr.Values {
+					vs = append(vs, fmt.Sprint(v))
+				}
+			}
+			sort.Strings(vs)
+			return strings.Join(vs, ",")
+		}
+		treeIds := func(fr *core.FindRules) string {
+			var ids []string
+			if fr != nil {
+				for _, er := range fr.Children {
+					if er.Rule != nil {
+						ids = append(ids, er.Rule.Id)
+					}
+				}
+			}
+			sort.Strings(ids)
+			return strings.Join(ids, ",")
+		}
+		type tc struct {
+			name, wantVals, wantIds string
+			ev                      core.Map
+		}
+		for _, c := range []tc{
+			{"ordinary event", "r1@T#0,r1@T#1", "r1", core.Map{"k": "go"}},
+			{"trigger event", "r1@T#0,r1@T#1", "r1", core.Map{"trigger!": "r1", "k": "go"}},
+			{"embedded rule", "embedded@T#0,embedded@T#1", "embedded", core.Map{"evaluate!": map[string]interface{}(mk(map[string]interface{}{"when": map[string]interface{}{"pattern": map[string]interface{}{"k": "?any"}}})), "k": "go"}},
+			{"trigger of a one-shot rule", "once@T#0,once@T#1", "once", core.Map{"trigger!": "once"}},
+		} {
+			r.Journal(rep.J{"triggered_round": round, "case": c.name, "body_id": bodyId})
+			fr, cond := loc.ProcessEvent(drv.Ctx(), c.ev)
+			r.Case(true, fmt.Sprint("triggered", kind, bodyId, c.name))
+			r.Count("triggered_or_embedded_runs", 1)
+			wit := rep.J{"state": kind, "case": c.name, "rule_body_id": bodyId, "values": vals(fr), "want_values": c.wantVals, "rules_in_tree": treeIds(fr), "condition": cond}
+			if cond != nil {
+				r.Violate("", c.name+": ProcessEvent reports a failure: "+cond.Msg, wit)
+				continue
+			}
+			if vals(fr) != c.wantVals {
+				r.Violate("", c.name+": the executions or the ruleId visible to the actions differ from the rule's own id", wit)
+				continue
+			}
+			if treeIds(fr) != c.wantIds {
+				r.Violate("", c.name+": the work tree names another rule than the one that ran", wit)
+			}
+		}
+		if _, err := loc.GetRule(drv.Ctx(), "once"); err == nil {
+			r.Violate("", "a one-shot rule is still stored after its triggered run", rep.J{"state": kind, "rule_body_id": bodyId})
+		}
+		if _, err := loc.GetRule(drv.Ctx(), "r1"); err != nil {
+			r.Violate("", "an ordinary rule disappeared after triggered runs: "+err.Error(), rep.J{"state": kind, "rule_body_id": bodyId})
+		}
+	}
+}
+
 func main() {
 	e := rep.GetEnv()
 	r := rep.New(e)
 	systemWrites(r, e)
+	triggered(r, e)
 	nWorlds := e.Pick(150, 1000)
 	arrs := [][]interface{}{{"s1"}, {"s1", "s2"}, {"s1", "s2", "x"}, {}}
 	for wi := 0; wi < nWorlds; wi++ {
@@ -174,7 +268,7 @@ func main() {
 					for _, b2 := range bs {
 						for ai, a := range rs.Actions {
 							if a == "ok" {
-								want = append(want, strings.Join([]string{rs.Id, fmt.Sprintf("a%d", ai), "L", fmt.Sprint(ev["k"]), str(b2, "?x"), str(b2, "?y")}, "|"))
+								want = append(want, strings.Join([]string{rs.Id, fmt.Sprintf("a%d", ai), "L", fmt.Sprint(ev["k"]), str(b2, "?x"), str(b2, "?y"), "clean"}, "|"))
 							} else {
 								wantFail++
 							}
@@ -260,6 +354,11 @@ func main() {
 					what += " an action saw the wrong environment"
 				}
 				r.Violate("", what, wit)
+				continue
+			}
+			if ref.Canon(map[string]interface{}(fr.Event)) != ref.Canon(ev) {
+				wit["event_in_tree"] = fr.Event
+				r.Violate("", "the event reported in the work tree is not the event that was submitted (an action's write to its `event` variable leaked)", wit)
 				continue
 			}
 			if treeFail != wantFail {
